@@ -42,8 +42,9 @@ func (p *Prog) reachSites(fn *ssa.Function) []StoreSite {
 
 func propC18(c *Check) {
 	p := c.p
-	c.Rule("R4", "import accepts what the chain writes: every record the running chain builds with fields of statically known shape (constant status, fixed-length keys) has a success path through the Validate method InitGenesis runs on imported records")
+	c.Rule("R4", "import accepts what the chain writes: every record the running chain builds with fields of statically known shape (constant status, fixed-length keys) has a success path through the Validate method InitGenesis runs on imported records; no named status value of a record leads to a panic in code run on import")
 	c.importValidatorsAcceptRuntimeRecords("R4")
+	c.importAcceptsEveryStatus("R4")
 	c.Rule("R1", "coverage: every collection of every keeper is read by its module's ExportGenesis and written by its InitGenesis, or is a derived index that InitGenesis rebuilds; every GenesisState field is assigned on export and consumed on import")
 	c.Rule("R2", "derived data obeys the runtime guards: InitGenesis ranks / indexes only Pending/Active validators, ranks only positive power, records only Active validators in the validator set, and rebuilds the voter queue from the voter status")
 	c.Rule("R3", "the exported validator set is LockingKeeper.ActiveValidators, which walks ValidatorSet and reports the recorded power and the validator's key")
